@@ -91,6 +91,13 @@ func DedupPermission(t *Truth) *Report {
 				continue
 			}
 			start := firstStartOfFlush(all, cur)
+			if start.Before(prev.End) && prev.Instance == cur.Instance {
+				// two deliveries of ONE instance overlapped (only possible across a reload, when the stopped
+				// dispatcher's delivery is still completing): this one was decided before "the previous one
+				// delivered" existed. (Overlaps between instances of a cluster are C08's business.)
+				rep.Counters["permitted_decided_before_previous_was_delivered"]++
+				continue
+			}
 			// across a config reload the statement does not say which repeat_interval governs: the
 			// smaller of the two is admitted
 			repeat := n.RepeatInterval
